@@ -19,6 +19,9 @@ on which the protocol handlers, `device_info` extractors or `service_info` raise
 * `isolation_unicast_gather` / `unicast_gather_counterexample`  the unicast path has no barrier
       around `ServiceParser.parse` (`get_response` → `_get_services` → `asyncio.gather`): isolation
       there rests on `parse` raising on no record content, and fails without it;
+* `isolation_multicast_assemble` / `multicast_assemble_counterexample`  the same for the multicast
+      path's assembly step (`get_response`: `_to_response` → `parse`, `_get_model`, after every
+      per-datagram barrier);
 * `good_only_good`        with no bad source nothing is filtered out;
 * `discover_pinned_counterexample`  D7: on the pinned `discover()` a single raising
       `service_info` (Companion `rpfl=zz`, AirPlay `flags=zz`) makes the whole scan fail — the
@@ -126,6 +129,31 @@ example : (scanM exEnv exSi [garbageDg, goodDg, badDg, garbageDg]).filter (fun c
 /-- unicast: hosts 1 and 2, one query each -/
 example : SeparatedU exEnv 1 isBad isGoodAddr [1, 2] [goodDg, badDg, garbageDg] := by decide +kernel
 example : (scanU exEnv exSi 1 [1, 2] [goodDg, badDg, garbageDg]).map (·.addr) = [1, 2] := by decide +kernel
+
+/-- **Multicast, the assembly step**: `get_response` turns the collected records into `Response`s
+    (`parse`, `_get_model`) after and outside all per-datagram handling; when that step raises for
+    no source the scan returns and isolation holds for what it returns … -/
+theorem isolation_multicast_assemble (e : Env) (si : SvcInfoFn) (bad goodAddr : Nat → Bool) (ws : List WDgram)
+    (raises : Nat → Bool) (htotal : ∀ s ∈ mcastSources (ws.map decodeM), raises s = false)
+    (hsep : SeparatedM e bad goodAddr ws) :
+    ∃ r, scanMAssemble e si ws raises = some r ∧
+      r.filter (fun c => goodAddr c.addr) = C05.scanM e si (ws.filter (fun w => !bad w.src)) := by
+  refine ⟨C05.scanM e si ws, ?_, isolation_multicast e si bad goodAddr ws hsep⟩
+  unfold scanMAssemble
+  have : (mcastSources (ws.map decodeM)).any raises = false := by
+    rw [List.any_eq_false]
+    intro s hs
+    simp [htotal s hs]
+  simp [this]
+
+/-- … and one source for which it raised would take every other source's devices with it. -/
+theorem multicast_assemble_counterexample :
+    ¬ (∀ (e : Env) (si : SvcInfoFn) (ws : List WDgram) (raises : Nat → Bool) (b : WDgram),
+        (scanMAssemble e si ws raises).isSome → (scanMAssemble e si (ws ++ [b]) raises).isSome) := by
+  intro h
+  have := h exEnv exSi [goodDg] (fun s => s == 2) garbageDg (by decide +kernel)
+  revert this
+  decide +kernel
 
 /-- … and that hypothesis cannot be dropped: there is no barrier on this path, one host on whose
     records `parse` raised would take every other host's result with it (the class of change
